@@ -34,8 +34,10 @@ GROUPS = [
     (["ts:score_1.1.0", "ts:testlib_2.0.0", "8.2.0"], {"": "8.2.0", "ts:": ["score_1.1.0", "testlib_2.0.0"]}),
     (["score_1.1.0", "sc:score_1.1.0"], {"": "score_1.1.0", "sc:": "score_1.1.0"}),
     (["x:8.3.0", "y:8.3.0"], {"x:": "8.3.0", "y:": "8.3.0"}),
+    (["8.3.0", "Sc:score_2.0.0"], {"": "8.3.0", "Sc:": "score_2.0.0"}),       # prefix with a capital letter
+    (["8.0.0", "SC:score_1.0.0"], {"": "8.0.0", "SC:": "score_1.0.0"}),
 ]
-QUICK_GROUPS = [0, 2, 3, 4, 6, 8, 9, 11, 12]
+QUICK_GROUPS = [0, 2, 3, 4, 6, 8, 9, 11, 12, 15]
 
 PARTNERS = [("score_1.1.0", "8.2.0"), ("score_2.0.0", "8.3.0"), ("testlib_2.0.0", "8.2.0"), ("testlib_2.1.0", "8.2.0"),
             ("testlib_3.0.0", "8.2.0"), (["score_1.1.0", "testlib_2.0.0"], "8.2.0"),
@@ -69,9 +71,13 @@ def prefix_all(text, p):
 def observe(text, sch, strip=""):
     """-> (verdict list, forms) ; verdict = [(code, severity, named tag without the prefix)]"""
     from hed import HedString
+    from hed.errors.error_reporter import ErrorHandler
+    from hed.errors.error_types import ErrorContext
     try:
         hs = HedString(text, sch)
-        issues = hs.validate(allow_placeholders=False)
+        eh = ErrorHandler(check_for_warnings=True)
+        eh.push_error_context(ErrorContext.HED_STRING, hs)
+        issues = hs.validate(allow_placeholders=False, error_handler=eh)
     except Exception as e:  # noqa
         return "EXC " + repr(e)[:200], None
     out = []
@@ -82,7 +88,10 @@ def observe(text, sch, strip=""):
             named = str(src)
         if named is not None and strip:
             named = prefix_strip(named, strip)
-        out.append((i["code"], i["severity"], named))
+        frag = None
+        if "char_index" in i:           # the selected fragment, modulo the prefix at its start
+            frag = prefix_strip(text[i["char_index"]:i["char_index_end"]], strip)
+        out.append((i["code"], i["severity"], named, frag))
     try:
         forms = []
         for t in hs.get_all_tags():
@@ -115,6 +124,8 @@ def annotations(w, alone, n_tags):
         s = e.short_tag_name
         out.append(s)
         out.append(e.long_tag_name)
+        if s.lower() != s:
+            out.append(s.lower())
         tv = e.takes_value_child_entry
         if tv is not None:
             out.append(s + "/3")
@@ -137,12 +148,18 @@ def annotations(w, alone, n_tags):
             "(Def-expand/Abc, (%s))" % a, "Label/a$b", "Label/abc, Label/abc", "%s,, %s" % (a, b), "(%s" % a,
             "(%s, ())" % a, "Event, Sensory-event, Agent-action", "(Red, Blue), (Blue, Red)", "Age/12", "Age/12 years",
             "Weight/3 kg, Weight/3 KG", "Item/Object, Object", "Property/Red", "Sensory-event/Red", "#", "Label/#"]
+    digit_first = sorted(e.short_tag_name for e in entries if e.short_tag_name[:1].isdigit())[:3]
+    out += digit_first + ["red", "item/object", "(red, Blue)", "RED"]
     seen, res = set(), []
     for t in out:
         if t not in seen:
             seen.add(t)
             res.append(t)
     return res
+
+
+def _without_style(verdict):
+    return [v for v in verdict if v[0] != "STYLE_WARNING"] if isinstance(verdict, list) else verdict
 
 
 # ------------------------------------------------------------------------------------------------------------------
@@ -169,6 +186,9 @@ def run_group(w, gi, n_tags, count=True, only=None):
                 w.case(key=(gi, ns, A), nontrivial=True,
                        sample={"group": spec, "annotation": PA, "codes": got if isinstance(got, str) else [g[0] for g in got]})
             clause = "C13.prefixed.judged_as_alone" if ns else "C13.unprefixed.judged_as_alone"
+            if ns and got != exp and _without_style(got) == _without_style(exp):
+                # narrow label: the only difference is the capitalisation warning (the rule reads the prefix as part of the name)
+                clause = "C13.prefixed.capitalisation_warning_reads_prefix"
             w.check(got == exp, clause, inp, got, exp, prefixed_text=PA)
             if got == exp and not isinstance(got, str):
                 w.check(gforms == eforms, "C13.forms.same_tag_forms_modulo_prefix", inp, gforms, eforms, prefixed_text=PA)
@@ -182,7 +202,7 @@ def run_group(w, gi, n_tags, count=True, only=None):
                     if not re.search(r"[^,()\s]", A):
                         continue
                     bgot, _ = observe(BA, G)
-                    has_err = isinstance(bgot, list) and any(sev == 1 for _, sev, _ in bgot)
+                    has_err = isinstance(bgot, list) and any(b[1] == 1 for b in bgot)
                     cl = "C13.prefix.not_alphabetic_is_error" if bp in BAD_PREFIXES_NONALPHA else \
                         "C13.prefix.not_loaded_is_error"
                     if count:
@@ -438,7 +458,7 @@ def run(w: Workload):
            exhaustive=True)
     w.assumptions += [
         "the 'schema of p alone' is load_schema_version of the same version text without the prefix",
-        "judged exactly = same ordered list of (code, severity, named tag text without the prefix)",
+        "judged exactly = same ordered list of (code, severity, named tag text, selected fragment), both without the prefix",
         "own tags of a library are the XML nodes carrying the inLibrary attribute; names clash when two XML files share a "
         "(case-folded) tag name outside a common partnered standard part",
         "only schemas bundled with the package are used (no network)",
